@@ -81,8 +81,17 @@ def same(want, got):
 def tlc_cases(tier, cov):
     runs = [("Builtins_quick", 900)] if tier == "quick" else [("Builtins_t_%s" % g, 2400) for g in ("a", "b", "c")]
     cases = []
-    for cfg, to in runs:
-        r = core.tlc_or_die("Builtins", cfg=cfg, timeout=to, workers=min(core.NCPU, 8))
+    import concurrent.futures
+    nw = max(2, min(core.NCPU, 8) // len(runs))
+    with concurrent.futures.ThreadPoolExecutor(max_workers=len(runs)) as ex:
+        def one(ict):
+            time.sleep(0.7 * ict[0])      # core.tlc derives its scratch directory from the clock
+            return core.tlc("Builtins", cfg=ict[1][0], timeout=ict[1][1], workers=nw)
+        results = list(ex.map(one, enumerate(runs)))
+    for (cfg, to), r in zip(runs, results):
+        if not r.ok:
+            sys.stderr.write(r.out[-6000:])
+            core.die("TLC failed (%s): %s" % (r.violation or r.rc, r.cmd))
         cov["tlc"].append(dict(r.summary(), config=cfg, violation=r.violation))
         for rec in r.printed:
             cases.append({"shape": rec["shape"], "args": [norm_value(a) for a in rec["args"]], "o": rec["o"],
@@ -91,20 +100,48 @@ def tlc_cases(tier, cov):
     return cases
 
 
+LIT_CAP = {"quick": 3, "thorough": 12}      # literal-argument combinations replayed per (shape, variant)
+
+
 def plan_calls(cases, tier, rng):
-    """-> funcs {fname: (pyx, decl-info)}, pfuncs {pname: src}, plan [(case index, fname, pname, argsrc, w, vtag, lits)]"""
-    funcs, pfuncs, plan = {}, {}, []
-    for ci, c in enumerate(cases):
+    """-> funcs {fname: pyx source}, pfuncs {pname: python source}, plan [(case index, fname, pname, argsrc, w, vtag, lits)],
+    quarantine: functions with a literal None argument (built apart: some are rejected by the C compiler)"""
+    # literal variants: one function per combination of literal values; the quick tier keeps a seeded subset
+    combos = collections.defaultdict(dict)
+    for c in cases:
         sh = L.SHAPE.get(c["shape"])
         if sh is None:
             core.die("shape %r published by the spec is unknown to lib_builtins" % c["shape"])
+        for vtag, decl, lits in sh.variants:
+            if lits and L.lit_admissible(sh, lits, c["args"]):
+                key = L.lit_key(sh, lits, c["args"])
+                combos[(sh.name, vtag)].setdefault(key, any(c["args"][sh.params.index(p)][0] == "None" for p in lits))
+    keep = {}
+    for sv, keys in combos.items():
+        names = sorted(keys)
+        cap = LIT_CAP[tier]
+        if len(names) > cap:
+            with_none = [k for k in names if keys[k]]
+            rng.shuffle(with_none)
+            rest = [k for k in names if not keys[k]]
+            rng.shuffle(rest)
+            chosen = with_none[:max(2, cap // 3)]
+            chosen += rest[:cap - len(chosen)]
+            keep[sv] = set(chosen)
+        else:
+            keep[sv] = set(names)
+    funcs, pfuncs, plan, quarantine = {}, {}, [], set()
+    for ci, c in enumerate(cases):
+        sh = L.SHAPE[c["shape"]]
         args = c["args"]
         for vtag, decl, lits in sh.variants:
             if not L.lit_admissible(sh, lits, args):
                 continue
+            if lits and L.lit_key(sh, lits, args) not in keep[(sh.name, vtag)]:
+                continue
             if sh.scaled:
                 bits = {L.CINT_BITS[d] for d in decl.values() if d in L.CINT_BITS}
-                ws = [min(bits)] if bits else [None, 32, 64]
+                ws = [min(bits)] if bits else ([None] if lits else [None, 32, 64])
             else:
                 ws = [None]
             for w in ws:
@@ -114,13 +151,15 @@ def plan_calls(cases, tier, rng):
                 pn = "P_%s%s" % (sh.name, L.lit_key(sh, lits, args))
                 if fn not in funcs:
                     funcs[fn] = L.func_source(sh, vtag, decl, lits, args, False)
+                    if any(args[sh.params.index(p)][0] == "None" for p in lits):
+                        quarantine.add(fn)
                 if pn not in pfuncs:
                     pfuncs[pn] = L.func_source(sh, vtag, decl, lits, args, True).replace(
                         "def P_" + fn, "def " + pn, 1)
                 cargs = [a for a, p in zip(args, sh.params) if p not in lits]
                 argsrc = "(" + "".join(L.pyexpr(a, w) + ", " for a in cargs) + ")"
                 plan.append((ci, fn, pn, argsrc, w, vtag, lits))
-    return funcs, pfuncs, plan
+    return funcs, pfuncs, plan, quarantine
 
 
 def descriptor(case, sh, vtag, lits, w):
@@ -142,7 +181,7 @@ def descriptor(case, sh, vtag, lits, w):
 
 def specialised(c_src, modname, fname):
     """B3 (coarse): the body of the generated function has no generic attribute / builtin lookup."""
-    m = re.search(r"static PyObject \*__pyx_pf_\d+%s_\d*%s\(.*?\n}\n" % (re.escape(modname), re.escape(fname)), c_src, re.S)
+    m = re.search(r"static PyObject \*__pyx_pf_\d+%s_\d*%s\([^;{]*\) \{\n.*?\n\}\n" % (re.escape(modname), re.escape(fname)), c_src, re.S)
     if not m:
         return None
     body = m.group(0)
@@ -175,9 +214,18 @@ def run(tier, seed):
         if "v" not in ks or (len(ks) < 2 and s not in NO_EXC_SHAPES):
             core.die("vacuity: shape %s has outcome classes %s only" % (s, sorted(ks)))
 
-    funcs, pfuncs, plan = plan_calls(cases, tier, rng)
-    nmod = 8 if tier == "quick" else 16
-    mods, rejected = L.build_functions(core, funcs, nmod, jobs, "c13")
+    only = os.environ.get("C13_ONLY")        # development aid: restrict the replay (not the model) to some shape groups
+    if only:
+        cases = [c for c in cases if L.SHAPE[c["shape"]].group in only.split(",")]
+
+    def tick(what):
+        if dev:
+            sys.stderr.write("[c13 %6.1fs] %s\n" % (time.time() - t0, what))
+    tick("tlc done: %d cases" % len(cases))
+    funcs, pfuncs, plan, quarantine = plan_calls(cases, tier, rng)
+    tick("planned %d functions, %d calls" % (len(funcs), len(plan)))
+    nmod = 12 if tier == "quick" else 24
+    mods, rejected = L.build_functions(core, funcs, nmod, jobs, "c13", quarantine=quarantine)
     if mods is None:
         rep.disagree({"part": "build"}, "build-failed", rejected)
         rc = rep.finish()
@@ -185,6 +233,7 @@ def run(tier, seed):
                             "transitions": len(cases), "traces_validated_against_impl": 0, "samples": [str(rejected)[:500]]},
                             time.time() - t0, violations=1)
         return rc
+    tick("built, %d rejected" % len(rejected))
     where = {}
     for mi, (b, names) in enumerate(mods):
         for n in names:
@@ -206,6 +255,7 @@ def run(tier, seed):
     b0 = mods[0][0]
     pprelude = L.PRELUDE + "\n" + "\n".join(pfuncs[n] for n in sorted(pfuncs))
     pobs = calls.run_calls(b0, pcalls, prelude=pprelude, timeout=1800, tag="P")
+    tick("cpython oracle: %d calls" % len(pcalls))
     for k, p in enumerate(plan):
         o = pobs[pkey[(p[2], p[3])]]
         try:
@@ -213,22 +263,34 @@ def run(tier, seed):
         except ValueError:
             obsP[k] = o
     spec_count = {}
-    for mi, (b, names) in enumerate(mods):
+
+    def run_module(mi):
+        b, names = mods[mi]
         ks = by_mod.get(mi, [])
         cl = [["run", [plan[k][1], plan[k][3], L.SHAPE[cases[plan[k][0]]["shape"]].mut]] for k in ks]
-        obs = calls.run_calls(b, cl, prelude=L.PRELUDE, timeout=1800, tag="C")
-        for k, o in zip(ks, obs):
+        obs = calls.run_calls(b, cl, prelude=L.PRELUDE, timeout=1800, tag="C") if cl else []
+        res = []
+        for o in obs:
             try:
-                obsC[k] = json.loads(o) if isinstance(o, str) and o.startswith("[") else o
+                res.append(json.loads(o) if isinstance(o, str) and o.startswith("[") else o)
             except ValueError:
-                obsC[k] = o
+                res.append(o)
+        sc = {}
         try:
             csrc = open(b.c_file).read()
             for n in names:
-                spec_count[n] = specialised(csrc, b.name, n)
+                sc[n] = specialised(csrc, b.name, n)
         except (OSError, TypeError):
             pass
+        return ks, res, sc
 
+    import concurrent.futures
+    with concurrent.futures.ThreadPoolExecutor(max_workers=jobs or 8) as ex:
+        for ks, res, sc in ex.map(run_module, range(len(mods))):
+            for k, o in zip(ks, res):
+                obsC[k] = o
+            spec_count.update(sc)
+    tick("compiled calls done")
     # ---- verdicts
     n_eval = n_ok = 0
     distinct = set()
@@ -296,6 +358,9 @@ def run(tier, seed):
                 "non-trivial = distinct (function, arguments) that agree and are not a plain call on a None receiver returning a value",
         "samples": samples[:5],
     })
+    if dev:
+        with open("/var/tmp/agent_C13/last_run.json", "w") as f:
+            json.dump({"drift": rep.drift, "violations": rep.violations, "kf": {k: v[:20] for k, v in rep.kf_hits.items()}}, f, default=str)
     rc = rep.finish()
     cov["known_findings"] = rep.kf_summary()
     core.write_evidence(PROP, tier, seed, "model_checking", cov, time.time() - t0,
@@ -307,3 +372,36 @@ def run(tier, seed):
                                      "character properties: table of 19 code points read off CPython's Unicode database"],
                         violations=rep.n_violations())
     return rc
+
+
+def replay(path, seed):
+    """Re-execute the cases of one replay file: build the recorded functions and compare with the recorded expectation."""
+    with open(path) as f:
+        rec = json.load(f)
+    cases = [c for c in rec.get("cases", []) if isinstance(c, dict) and c.get("function") and "args" in c]
+    if not cases:
+        core.die("replay file has no executable cases (build failure?): %s" % path)
+    funcs = {}
+    for c in cases:
+        m = re.match(r"def (\w+)\(", c["function"])
+        funcs[m.group(1)] = c["function"]
+    mods, rejected = L.build_functions(core, funcs, 1, 1, "c13r")
+    bad = 0
+    for n, r in rejected.items():
+        print("rejected by %s: %s: %s" % (r["stage"], n, r["error"][:200]))
+        bad += 1
+    if mods:
+        b, names = mods[0]
+        todo = [c for c in cases if re.match(r"def (\w+)\(", c["function"]).group(1) in names]
+        cl = [["run", [re.match(r"def (\w+)\(", c["function"]).group(1), c["args"], c["want"][1] is not None]] for c in todo]
+        obs = calls.run_calls(b, cl, prelude=L.PRELUDE, timeout=600, tag="R")
+        for c, o in zip(todo, obs):
+            try:
+                got = json.loads(o) if isinstance(o, str) and o.startswith("[") else o
+            except ValueError:
+                got = o
+            ok = same(c["want"], got)
+            print("%s args=%s want=%s got=%s %s" % (re.match(r"def (\w+)\(", c["function"]).group(1), c["args"], json.dumps(c["want"]),
+                                                     json.dumps(got), "ok" if ok else "DIFFERS"))
+            bad += 0 if ok else 1
+    return 1 if bad else 0
